@@ -73,46 +73,78 @@ var stackBufs = sync.Pool{New: func() any { b := make([]byte, 1<<20); return &b 
 type op struct {
 	Kind string
 	Seq  int64
-	Goid uint64
+	Goid uint64 // 0: attributed through the owner token (see tagConn.owner)
 	N    int
 }
 
+// tagConn logs every operation on the connection with a sequence number and
+// its origin. Origin is the calling goroutine's id. Reading that id costs a
+// stack walk, so the hijack handler (and the keeper of a kept conn) announce
+// each of their own calls by setting the owner token right before it; an
+// operation that consumes the token is theirs, every other operation is
+// attributed by goroutine id.
 type tagConn struct {
 	*netx.Scripted
 	seq     atomic.Int64
+	owner   atomic.Bool
 	mu      sync.Mutex
 	ops     []op
 	closeCh chan struct{}
 	once    sync.Once
 }
 
-func (t *tagConn) log(kind string, seq int64, n int) {
-	g := goid()
+func (t *tagConn) log(kind string, seq int64, n int, owned bool) {
+	var g uint64
+	if !owned {
+		g = goid()
+	}
 	t.mu.Lock()
 	t.ops = append(t.ops, op{kind, seq, g, n})
 	t.mu.Unlock()
 }
 
 func (t *tagConn) Read(p []byte) (int, error) {
+	owned := t.owner.CompareAndSwap(true, false)
 	s := t.seq.Add(1)
 	n, err := t.Scripted.Read(p)
-	t.log("READ", s, n)
+	t.log("READ", s, n, owned)
 	return n, err
 }
 
 func (t *tagConn) Write(p []byte) (int, error) {
+	owned := t.owner.CompareAndSwap(true, false)
 	s := t.seq.Add(1)
 	n, err := t.Scripted.Write(p)
-	t.log("WRITE", s, n)
+	t.log("WRITE", s, n, owned)
 	return n, err
 }
 
 func (t *tagConn) Close() error {
 	s := t.seq.Add(1)
 	err := t.Scripted.Close()
-	t.log("CLOSE", s, 0)
+	t.log("CLOSE", s, 0, false)
 	t.once.Do(func() { close(t.closeCh) })
 	return err
+}
+
+// ownedConn is what the hijack handler uses: it announces each call.
+type ownedConn struct {
+	net.Conn
+	t *tagConn
+}
+
+func (o ownedConn) Read(p []byte) (int, error) {
+	o.t.owner.Store(true)
+	n, err := o.Conn.Read(p)
+	o.t.owner.Store(false)
+	return n, err
+}
+
+func (o ownedConn) Write(p []byte) (int, error) {
+	o.t.owner.Store(true)
+	n, err := o.Conn.Write(p)
+	o.t.owner.Store(false)
+	return n, err
 }
 
 // ---------------------------------------------------------------- plan
@@ -327,6 +359,7 @@ func runCase(p plan, rnd *rand.Rand) (probs []problem, inc string, info map[stri
 		hs.startSeq = tc.seq.Add(1)
 		hs.startWritten = tc.WrittenLen()
 		hs.startDeliv = tc.Delivered()
+		c = ownedConn{c, tc}
 		hs.conn = c
 		close(hs.started)
 		c.Write(w1)
@@ -388,11 +421,14 @@ func runCase(p plan, rnd *rand.Rand) (probs []problem, inc string, info map[stri
 	if p.ConnClose {
 		// documented: the hijack handler is skipped when 'Connection: close' is present. Not part of the statement; observed only.
 		info["connclose"] = true
-		select {
-		case <-hs.started:
-			info["connclose_handler_called"] = true
-			<-hs.done
-		default:
+		if !closedByServe {
+			// the server kept its hands off the conn: it was hijacked after all (HijackSetNoResponse skips the close check)
+			select {
+			case <-hs.done:
+				info["connclose_handler_called"] = true
+			case <-time.After(90 * time.Second):
+				return nil, "hijack handler (Connection: close case) did not finish within 90s", info
+			}
 		}
 		return probs, "", info
 	}
@@ -571,13 +607,13 @@ func runCase(p plan, rnd *rand.Rand) (probs []problem, inc string, info map[stri
 	serverCloses := 0
 	for _, o := range ops {
 		if o.Seq < hs.startSeq {
-			if o.Goid != serverGoid {
+			if o.Goid != serverGoid { // includes 0: nobody owns the token before hand-over
 				add("foreign-goroutine-before-handover", fmt.Sprintf("%+v by goroutine %d (serving goroutine %d)", o, o.Goid, serverGoid))
 			}
 			continue
 		}
-		inHandler := o.Goid == hs.goid && o.Seq < hs.endSeq
-		byKeeper := p.KeepTail && o.Goid == serverGoid && o.Seq > keeperStartSeq
+		inHandler := (o.Goid == hs.goid || o.Goid == 0) && o.Seq < hs.endSeq
+		byKeeper := p.KeepTail && (o.Goid == serverGoid || o.Goid == 0) && o.Seq > keeperStartSeq
 		switch {
 		case inHandler || byKeeper:
 		case o.Kind == "CLOSE" && o.Goid == hs.goid && o.Seq > hs.endSeq:
@@ -631,7 +667,7 @@ func TestC17(t *testing.T) {
 	r.Rule("case = ServeConn over a scripted conn: 0-2 ordinary requests, a hijacking request (GET/POST+body/HEAD, optional Upgrade/101, response body 0-20000 bytes, HijackSetNoResponse 1/3) and a PRNG tail of 0-65536 bytes (random/http-like/CRLF/text) plus an optional second part sent only after the handler's first write; ReduceMemoryUsage, KeepHijackedConns, Read/WriteBufferSize and the fragmentation plan (everything per Read, boundary exactly at the request end, k bytes into the tail, k bytes before the end, fixed n) vary; the hijack handler writes, reads to EOF with PRNG read sizes, writes, optionally closes; in keep mode it may stop early and the kept conn is read to EOF afterwards. distinct = (options, method, fragmentation mode, tail size class, how many tail bytes were already consumed from the conn at hand-over: none/part/all, second part, close variants); non-trivial = tail non-empty")
 	r.Assume("h1 reference decides the request boundary and response framing; goroutine ids taken from runtime.Stack attribute conn operations; 'the server is done' = the goroutine that ran the hijack handler no longer exists")
 	r.Assume("requests with 'Connection: close' (documented: hijack handler skipped) are executed but not judged (events connclose_*)")
-	n := r.N(3000, 150000)
+	n := r.N(3000, 100000)
 	mon.Parallel(n, 0, func(i int) {
 		if !r.Want(i) {
 			return
